@@ -100,17 +100,30 @@ theorem row_sat_muladd (w pub : Nat → F) (a b c out : Nat) (io : Option Nat)
   have := (C11.laneMulAdd_iff 1 (1 : F) one_ne_zero [w a * w b] [w c] [w out]).mp h 0 (by omega)
   simpa [Op.holds, vget] using this
 
-/-- The row constraints of one non-Horner ALU op on the bus values (selector one-hot, D = 1). -/
+/-- **HORNER row** (single step): the cross-row constraint `out' = prev_out·b' + c' − a'`, with the
+previous row's `out` column carrying the accumulator slot's value (the schedule places a chain's
+steps on consecutive rows; `C10`'s `horner-chain-not-wf` finding is the completeness side). -/
+theorem row_sat_horner (w pub : Nat → F) (a b c out acc : Nat)
+    (h : ∀ x ∈ hornerSingle 1 (1 : F) [w acc * w b] [w c] [w a] [w out], x = 0) :
+    (Op.alu .horner a b (some c) out (some acc) : Op F).holds w pub := by
+  have := (C11.hornerSingle_iff 1 (1 : F) one_ne_zero [w acc * w b] [w c] [w a] [w out]).mp h 0 (by omega)
+  simp only [vget, List.getD_cons_zero] at this
+  simp only [Op.holds]
+  rw [this]
+
+/-- The row constraints of one ALU op on the bus values (selector one-hot, D = 1). -/
 def rowOk (w : Nat → F) : Op F → Prop
   | .alu .add a b _ out _ => ∀ x ∈ laneAdd 1 (1 : F) [w a] [w b] [w out], x = 0
   | .alu .mul a b _ out _ => ∀ x ∈ laneEq 1 (1 : F) [w a * w b] [w out], x = 0
   | .alu .boolCheck a _ _ _ _ => ∀ x ∈ laneBool 1 (1 : F) [w a], x = 0
   | .alu .mulAdd a b (some c) out _ => ∀ x ∈ laneMulAdd 1 (1 : F) [w a * w b] [w c] [w out], x = 0
   | .alu .mulAdd _ _ none _ _ => False
+  | .alu .horner a b (some c) out (some acc) =>
+    ∀ x ∈ hornerSingle 1 (1 : F) [w acc * w b] [w c] [w a] [w out], x = 0
   | .alu .horner _ _ _ _ _ => False
   | _ => True
 
-/-- **C04 (partial).** If every ALU row (no Horner steps) satisfies its constraints on the
+/-- **C04 (partial).** If every ALU row (single-step Horner rows included) satisfies its constraints on the
 values the bus assigns to its operand slots, the assignment satisfies every op relation. The
 `Const`/`Public` clauses are hypotheses: `hconst` is exactly what the current code does *not*
 enforce (finding F4), `hpub` is the caller's comparison of public values. -/
@@ -135,7 +148,13 @@ theorem accepted_alu_sat_partial (w pub : Nat → F) (ops : List (Op F))
       cases c with
       | none => exact absurd hr (by simp [rowOk])
       | some cv => exact row_sat_muladd w pub a b cv out io hr
-    | horner => exact absurd hr (by simp [rowOk])
+    | horner =>
+      cases c with
+      | none => exact absurd hr (by simp [rowOk])
+      | some cv =>
+        cases io with
+        | none => exact absurd hr (by simp [rowOk])
+        | some acc => exact row_sat_horner w pub a b cv out acc hr
 
 end Rows
 
